@@ -24,6 +24,8 @@ def run(rep, tier):
     landing.r_status_success(rep, f)
     rep.rule("R-LAND-EXACT", "a solver that decides completion by comparing its abscissa with xend assigns x = xend itself on the clipped last step (a rounded x + (xend - x) can fall an ulp short and end the run with StepSizeTooSmall)")
     landing.r_land_exact(rep, f)
+    rep.rule("R-LAND-REMAINDER", "a step clipped to the remaining distance xend - x (a few ulps when max_step divides the interval) is never run into the step-size underflow exit: the landing test stretches, or no underflow test lies between the clip and the step's stage evaluations")
+    landing.r_land_remainder(rep, f)
     landing.r_land_cover(rep, f)
     landing.r_land_stretch(rep, f)
     landing.r_crange_all(rep, f)
